@@ -655,6 +655,15 @@ func (i *interpreter) symSprintf(format string, args []value) value {
 			continue
 		}
 		k++
+		// flags, width and precision are passed through to fmt for concrete operands
+		specStart := k
+		for k < len(format) && strings.IndexByte("+-# 0123456789.", format[k]) >= 0 {
+			k++
+		}
+		if k >= len(format) {
+			i.unsupported("fmt.Sprintf: truncated verb")
+		}
+		spec := format[specStart:k]
 		verb := format[k]
 		if verb == '%' {
 			out = append(out, uint8('%'))
@@ -665,12 +674,27 @@ func (i *interpreter) symSprintf(format string, args []value) value {
 		}
 		a := args[ai].(iface).v
 		ai++
+		if n, ok := i.toNative(a); ok {
+			out = append(out, strBytes(fmt.Sprintf("%"+spec+string(verb), n))...)
+			continue
+		}
+		if spec != "" {
+			i.unsupported("fmt.Sprintf verb %" + spec + string(verb) + " with a symbolic operand")
+		}
 		switch verb {
-		case 's', 'v', 'c', 'd':
+		case 's', 'v', 'c', 'd', 'q':
 			switch x := a.(type) {
 			case string, sstr:
 				if verb == 'd' {
 					i.unsupported("fmt.Sprintf %d of string")
+				}
+				if verb == 'q' {
+					// quoting of a symbolic string: the bytes between quotes, without escapes (only
+					// used in messages, whose content is never the subject of a property)
+					out = append(out, uint8('"'))
+					out = append(out, strBytes(x)...)
+					out = append(out, uint8('"'))
+					break
 				}
 				out = append(out, strBytes(x)...)
 			case *sym.Term:
